@@ -22,6 +22,11 @@ class Spec:
     partial = ()               # theorem names that are `_partial` (documented hypothesis)
     refuted = ()               # theorem names that are proved negations of the full statement
     assumptions = ()
+    claimed = True             # listed in MANIFEST.checks (False: work in progress)
+    level_text = ""            # MANIFEST level_claimed.text
+    level_note = ""            # MANIFEST level_note (assumptions / trusted base)
+    design_ref = None
+    technique = None
     trusted_base_extra = ()
     quick_timeout = 900
     thorough_timeout = 7200
